@@ -1,4 +1,5 @@
 import Cuke.Model.Writers
+import Cuke.Model.Exit
 import Cuke.Props.C12
 import Cuke.Props.C11
 import Cuke.Props.C13
@@ -234,5 +235,44 @@ example : ∃ e ∈ streamA, e.isHookFailed = true ∧ noRetryLeft e = false := 
 /-- non-vacuity of the partial theorem: a stream satisfying its hypotheses that does fail finally -/
 example : (∀ e ∈ streamB.dropLast, e.isHookFailed = true → noRetryLeft e = true) ∧
     execFailed (.summ (.leaf 0)) (runW (catx 1) (.summ (.leaf 0)) streamB).1 = true := by decide +kernel
+
+/-! ## the process verdict: `Cucumber::run_and_exit` (src/cucumber.rs `filter_run_and_exit`) -/
+
+/-- `run_and_exit` panics (the test binary exits non-zero) exactly when the statistics writer says the
+    execution has failed — for every pipeline and every event stream. -/
+theorem run_and_exit_panics_iff (cat : Catalog) (w : W) (evs : List Ev) :
+    (runAndExit cat w evs).isSome = execFailed w (runW cat w evs).1 := by
+  simp only [runAndExit, exitOutcome]
+  cases execFailed w (runW cat w evs).1 <;> simp
+
+/-- … hence, for the default `summarized()` pipeline, exactly on the streams characterised by
+    `summVerdict_iff`: a parse error, a step failure classified as final, or a failed hook before
+    run-Finished. -/
+theorem run_and_exit_summarized (cat : Catalog) (w : W) (pre post : List Ev)
+    (h : ∀ e ∈ pre, e.isFinished = false) :
+    (runAndExit cat (.summ w) (pre ++ Ev.finished :: post)).isSome = true ↔
+      ∃ e ∈ pre, e.isParseErr = true ∨ isFinalStepFailure e = true ∨ e.isHookFailed = true := by
+  rw [run_and_exit_panics_iff]
+  exact summVerdict_iff cat w pre post h
+
+/-- the panic message names exactly the non-zero counters, in the order steps / parsing / hooks -/
+theorem exit_message_parts (s : StatsVec) :
+    (exitParts s).length = (if s.failed > 0 then 1 else 0) + (if s.parsingErrors > 0 then 1 else 0)
+      + (if s.hookErrors > 0 then 1 else 0) := by
+  unfold exitParts
+  split <;> split <;> split <;> simp
+
+/-- a failed execution always has something to say: the message is never empty when the verdict comes from
+    the default formula (`defaultFailed`) -/
+theorem exit_message_nonempty (s : StatsVec) (h : s.defaultFailed = true) : exitParts s ≠ [] := by
+  unfold StatsVec.defaultFailed at h
+  unfold exitParts
+  simp only [Bool.or_eq_true, decide_eq_true_eq] at h
+  rcases h with (h | h) | h <;> simp [h]
+
+/-- no run, no failure: returns normally -/
+example : runAndExit (catx 1) (.summ (.leaf 0)) [] = none := by decide +kernel
+/-- the F-C01 witness stream panics with one hook error -/
+example : (runAndExit (catx 1) (.summ (.leaf 0)) streamA).isSome = true := by decide +kernel
 
 end Cuke.C01
